@@ -56,6 +56,35 @@ def payloads(text):
     return out
 
 
+def payloads_by_reference(text):
+    """the same multiset, with the text cut into tokens by the independent reference tokenizer (reflex.py) instead of the library's lexer: what the INPUT says,
+    whatever the library's lexer makes of it (a lexer that swallows tokens — e.g. into a comment that does not end where it should — is invisible to an
+    accounting that lets the same lexer read the input).  None when the reference rejects the text."""
+    import reflex
+    out = collections.Counter()
+    kw = keywords()
+
+    def walk(ts):
+        for t in ts:
+            if t[0] == "leaf":
+                src, marks = t[1], t[2]
+                if marks & reflex.LIT:
+                    src = "NULL" if src.upper() == "NULL" else src
+                    out[str(int(src)) if re.fullmatch(r"[0-9]+", src) else src] += 1
+                elif marks & reflex.NAME:
+                    if src.strip("`").upper() in kw:
+                        continue
+                    for part in src.strip("`").split("."):
+                        out[part.strip("`")] += 1
+            else:
+                walk(t[5])
+    try:
+        walk(reflex.tokens(text, 7))
+    except reflex.Reject:
+        return None
+    return out
+
+
 def acc(parts):
     from metasequoia_sql import SQLType, SQLParser
     st = SQLType[parts[1]]
@@ -77,6 +106,11 @@ def acc(parts):
     except Exception as e:
         return "OK printed-text-does-not-lex:" + canon.err_kind(e)
     if a == b:
+        ref = payloads_by_reference(text)
+        if ref is not None and ref != a:
+            lost = sorted((ref - b).elements())
+            gained = sorted((b - ref).elements())
+            return "OK differs-from-the-written-text lost=[%s] gained=[%s]" % (",".join(canon.q(x) for x in lost[:6]), ",".join(canon.q(x) for x in gained[:6]))
         return "OK equal %d" % sum(a.values())
     lost = sorted((a - b).elements())
     gained = sorted((b - a).elements())
